@@ -3,7 +3,7 @@
    Print Assumptions.  Part 1: #if evaluation (PpIf = transcription of c2mir's evaluator after
    fixes/C09-1.patch, C11If = C11 6.10.1p4 written from the standard). *)
 From Coq Require Import ZArith Bool List.
-From MirV Require Import C09.PpIf C09.C11If C09.PpIfProofs.
+From MirV Require Import C09.PpIf C09.C11If C09.PpIfProofs C09.PpExpand C09.PpExpandProofs.
 Local Open Scope Z_scope.
 
 (* For every controlling expression to which C11 assigns a value (no evaluated division by zero,
@@ -53,3 +53,37 @@ Theorem pp_if_prefix_hexconst_refuted : disagrees (mkq false false false false t
   (EBin BLt (EUn UNeg (xlit 2147483648)) (dlit 0)).
 Proof. exact hex_uint_constant_refuted. Qed.
 Print Assumptions pp_if_prefix_cmp_refuted.
+
+(* ---------------- Part 2: the expansion loop (object-like macros) and the string codec ---------------- *)
+
+(* For every finite table of object-like macros (self-referential and mutually recursive ones
+   included) and every input, the loop of `processing` terminates: the explicit potential computed
+   from the table is enough fuel. *)
+Theorem expand_terminates : forall d N, table_bounded d N -> forall input, exists out, expand d N input = Some out.
+Proof. exact expand_terminates_lemma. Qed.
+Print Assumptions expand_terminates.
+
+(* the "no recursion while on the stack" rule: in every reachable state macro_call_stack has no duplicates *)
+Theorem no_macro_reentered_while_active : forall d N, table_bounded d N -> forall s, reachable d s -> NoDup (calls s).
+Proof. exact no_recursion_lemma. Qed.
+Print Assumptions no_macro_reentered_while_active.
+
+(* painted identifiers are never expanded: the output contains no expandable identifier and is a
+   fixed point of the expander (rescanning it, as argument pre-expansion and #if do, changes nothing) *)
+Theorem painted_never_expanded : forall d N input out,
+  expand d N input = Some out -> Forall (inert d) out /\ expand d N out = Some out.
+Proof. exact painted_never_expanded_lemma. Qed.
+Print Assumptions painted_never_expanded.
+
+(* stringify / destringify (used for __FILE__, #line output and _Pragma): the full round trip is FALSE of
+   the code as it is (two backslashes come back as one: destringify does not consume the escaped
+   character); it holds when no backslash is followed by a backslash or a quote, and it holds for
+   every string for destringizing as C11 6.10.9 words it.  Not observable in the token stream
+   (only _Pragma text is destringized), hence no finding: see design/C09.md. *)
+Theorem stringify_destringify_roundtrip_refuted : exists s, destringify (stringify s) <> s.
+Proof. exact PpExpandProofs.stringify_destringify_roundtrip_refuted. Qed.
+Theorem stringify_destringify_roundtrip_partial : forall s, no_bs_special s = true -> destringify (stringify s) = s.
+Proof. exact PpExpandProofs.stringify_destringify_roundtrip_partial. Qed.
+Theorem stringify_destringify_roundtrip_c11 : forall s, destringify_c11_body (strip_quotes (stringify s)) = s.
+Proof. exact stringify_destringify_c11_roundtrip. Qed.
+Print Assumptions stringify_destringify_roundtrip_partial.
